@@ -10,10 +10,11 @@ def plan(tier):
     p = Plan()
     quick = tier == 'quick'
     goals = ['NoRestartMidHeight', 'NoDecisionAfterCrash', 'ReplayRestores']
-    p.exhaustive = [(tm.Cfg('n3p112-b0-r1-crash1', [1, 1, 2], [1], max_round=1, budget=0, crashes=1, crash_set=[2],
+    p.exhaustive = [(tm.Cfg('n3p112-b0-r0-crash1', [1, 1, 2], [1], max_round=0, budget=0, crashes=1, crash_set=[2],
                             torn=True), goals)]
     if not quick:
-        p.exhaustive += [(tm.Cfg('n3p112-b0-r1-crash2', [1, 1, 2], [1], max_round=1, budget=0, crashes=2,
+        p.exhaustive += [(tm.Cfg('n3p112-b0-r1-crash1', [1, 1, 2], [1], max_round=1, budget=0, crashes=1,
+                                 crash_set=[2], torn=True), goals), (tm.Cfg('n3p112-b0-r1-crash2', [1, 1, 2], [1], max_round=1, budget=0, crashes=2,
                                  crash_set=[2, 3], torn=True), goals),
                          (tm.Cfg('n3p112-b1-r1-crash1', [1, 1, 2], [1], max_round=1, budget=1, crashes=1,
                                  crash_set=[3], torn=True), [])]
